@@ -22,7 +22,8 @@ for sid in ids:
     patch = os.path.join("seeded", sid, "patch.diff")
     if not os.path.exists(patch):
         continue
-    checks = [sid] + [c for c in RELATED.get(sid, []) + extra if c != sid]
+    own = sid[:3]  # seeded/C07b is a second change for C07
+    checks = [own] + [c for c in RELATED.get(own, []) + extra if c != own]
     p = subprocess.run(["bash", "tools/with_patch.sh", patch] + checks, capture_output=True, text=True, env={**os.environ, "WP_LINES": "6"})
     out = p.stdout
     res, cur = {}, None
